@@ -490,6 +490,12 @@ fn build_other(kind: &str, rng: &mut Rng, sim: &mut Sim, ck: &mut Checker, v6: b
             sim.reals.push((0, me.clone(), a));
             // single-contact regime (periodic re-bootstrap) or well-connected
             let k = if !big && rng.chance(1, 3) { 1 } else { n };
+            // the only bootstrap contact goes silent for good after a while: the node can never report
+            // bootstrapped again (every later attempt fails), the contacts it learnt must still be kept fresh by
+            // the refresh alone (round-4 seed C11: the refresh sat out while the node was not bootstrapped)
+            if k == 1 && n >= 3 && rng.chance(1, 2) {
+                sim.peers[0].policy = Policy::GoodUntil(t0 + rng.range(30, 300) as u128 * S);
+            }
             let nodes: Vec<String> = sim.peers.iter().take(k).map(|p| addr_str(&p.addr)).collect();
             sim.end = t0 + dur;
             sim.lat_ms = (5, 250);
